@@ -460,7 +460,9 @@ func (tps *TPS) combineShares() PK {
 		pk.Y[i] = tps.pp.g2.Mul(tps.sk.ys[i])
 	}
 
+	tps.lock.Lock()
 	tps.publicKeysOfParties[tps.Party] = pk.Bytes()
+	tps.lock.Unlock()
 
 	return pk
 }
